@@ -130,6 +130,39 @@ def programs(tier):
         p.fn("mb", [], TB, vb)
         p.fn("main", [], UNIT, Block([println(show_int(Call("fa", Call("ma")))), println(show_int(Call("fb", Call("mb"))))], Unit))
         out.append({"prog": p, "family": "c19", "ident": f"c19:types-differ-only-in:{aspect}", "expect": "accept"})
+    # ---- instances at two types that agree on their outer d levels and differ only below: every instance gets its own name however
+    # deep the difference sits (wrappers: a generic struct, Vec, Ref, one-element tuples are not writable - pairs)
+    from gast import TextProgram as _TP
+    def nest(w, inner, d):
+        t = inner
+        for _ in range(d):
+            t = {"box": f"Box[{t}]", "vec": f"Vec[{t}]", "ref": f"Ref[{t}]", "pair": f"({t}, bool)"}[w]
+        return t
+    def wrapv(w, inner, d):
+        e = inner
+        for _ in range(d):
+            e = {"box": f"Box {{ v: {e} }}", "vec": f"vec_push(vec_new(), {e})", "ref": f"ref({e})", "pair": f"({e}, true)"}[w]
+        return e
+    def unwrap(w, x, d, ty_of):
+        # let-chain with annotations (projections / builtin results on unannotated values are an inference limitation, not the subject)
+        L, cur = [], x
+        for k in range(d, 0, -1):
+            nxt = f"u{k}"
+            rhs = {"box": f"{cur}.v", "vec": f"vec_get({cur}, 0)", "ref": f"ref_get({cur})", "pair": f"{cur}.0"}[w]
+            L.append(f"    let {nxt}: {ty_of(k - 1)} = {rhs};")
+            cur = nxt
+        return L, cur
+    for w in ("box", "vec", "ref", "pair"):
+        for d in ((2, 9, 11) if tier == "quick" else (1, 2, 4, 7, 8, 9, 10, 11, 13)):
+            ti, ts = nest(w, "int32", d), nest(w, "string", d)
+            li, xi = unwrap(w, "x", d, lambda k: nest(w, "int32", k))
+            ls, xs = unwrap(w, "x", d, lambda k: nest(w, "string", k))
+            text = ("struct Box[T] { v: T }\nfn idg[T](x: T) -> T { x }\nfn count[T](x: T, n: int32) -> int32 { n + 1 }\n"
+                    f"fn mi() -> {ti} {{ {wrapv(w, '41', d)} }}\nfn ms() -> {ts} {{ {wrapv(w, chr(34) + 'deep' + chr(34), d)} }}\n"
+                    f"fn ui(x: {ti}) -> int32 {{\n" + "\n".join(li) + f"\n    {xi}\n}}\nfn us(x: {ts}) -> string {{\n" + "\n".join(ls) + f"\n    {xs}\n}}\n"
+                    "fn main() -> unit {\n    let a = idg(mi());\n    let b = idg(ms());\n"
+                    "    let _ = string_println(int32_to_string(ui(a)) + us(b) + int32_to_string(count(mi(), 1)) + int32_to_string(count(ms(), 5)));\n    ()\n}\n")
+            out.append({"prog": _TP(f"c19_deep_{w}_{d}", text, ["41deep26"]), "family": "c19", "ident": f"c19:instances-differ-only-below-depth:{w}:{d}", "expect": "accept"})
     # ---- the same name declared in TWO packages (each kind of entity): both must stay distinct in the one Go file they end up in
     lib = ("package Lib\n\nenum Color { Red, Green(int32) }\nstruct Item { v: int32 }\ntrait Show { fn show(Self) -> string; }\n"
            "impl Show for Item { fn show(self: Item) -> string { \"lib-item \" + int32_to_string(self.v) } }\nimpl Show for int32 { fn show(self: int32) -> string { \"lib-int\" } }\n"
